@@ -110,10 +110,10 @@ theorem c13_repeat (s : Db Text) (k : QKind) (f : Nat) :
       unfold query
       simp only [hk, if_true]
       split
-      · split
-        · rfl
-        · split <;> rfl
       · rfl
+      · split
+        · split <;> rfl
+        · rfl
     rw [hfst]
     unfold query
     simp only [hk, if_true, withSynced_idem]
@@ -141,6 +141,19 @@ theorem c13_queries_transparent (h₁ h₂ : List (Op Text)) (k k' : QKind) (f f
   apply c13_fresh
   intro g
   simp [Spec.final, List.foldl_append, Spec.step]
+
+omit [DecidableEq Text] in
+/-- **The unspecified iteration order of the hash maps does not matter.**  `sync_project_inputs`
+collects `SalsaState.sources` in hash-map order and sorts by file id: whatever enumeration of the
+same map it starts from, the resulting `ProjectInputs.files` is the same list (and look-ups do not
+depend on the enumeration either).  The only other loop over a hash map, in
+`prepare_salsa_project`, is a no-op on every reachable state (next theorem). -/
+theorem c13_sync_order_independent (s s' : Db Text) (hp : s.salsaSrc.Perm s'.salsaSrc)
+    (hn : (keys s.salsaSrc).Nodup) :
+    (syncProjectInputs s).project = (syncProjectInputs s').project ∧
+      ∀ f, lookup s.salsaSrc f = lookup s'.salsaSrc f := by
+  refine ⟨?_, lookup_perm _ _ hp hn⟩
+  simp [syncProjectInputs, sortById_perm_eq _ _ hp hn]
 
 /-- **The lazy re-sync is only ever pending on a database that never held a file.**  So on every
 reachable state `prepare_salsa_project` does nothing but create the (empty) `ProjectInputs`:
@@ -261,6 +274,14 @@ example :
   · by_cases h3 : f = 3
     · subst h3; decide
     · simp [Spec.final, Spec.step, lookup, h7, h3, Ne.symm h7, Ne.symm h3]
+
+/-- `c13_sync_order_independent` is not vacuous: two enumerations of the same two-file map. -/
+example :
+    let s : Db Nat := { (Db.new : Db Nat) with salsaSrc := [(3, 0), (1, 1)] }
+    let s' : Db Nat := { (Db.new : Db Nat) with salsaSrc := [(1, 1), (3, 0)] }
+    s.salsaSrc.Perm s'.salsaSrc ∧ (keys s.salsaSrc).Nodup ∧
+      (syncProjectInputs s).project = some [(1, 1), (3, 0)] := by
+  refine ⟨List.Perm.swap _ _ _, by decide, by decide⟩
 
 /-- The pristine state is the one on which the lazy path runs: the first project-keyed query on a
 new database creates an empty `ProjectInputs` (and does not panic). -/
